@@ -165,7 +165,15 @@ def _worker(i):
         _run_one(rec, c, variant, reg, tier, seed, cp)
     except Exception as e:
         import traceback
-        rec.calls.append(('error', ('%s: worker crashed: %s' % (c.target, traceback.format_exc()[-800:]),)))
+        frames = traceback.extract_tb(e.__traceback__)
+        in_contract = bool(frames) and os.sep + 'contracts' + os.sep in frames[-1].filename
+        if in_contract and isinstance(e, (KeyError, AttributeError, IndexError, TypeError)):
+            # the sidecar contract names something (a local of a loop invariant, a field) that the function no longer has:
+            # the contract has to be re-derived -- undecided, neither a violation nor a crash of the checker
+            rec.calls.append(('undecide', ('%s: the contract no longer fits the function (%s: %s at %s:%d)'
+                                           % (c.target, type(e).__name__, e, os.path.basename(frames[-1].filename), frames[-1].lineno),)))
+        else:
+            rec.calls.append(('error', ('%s: worker crashed: %s' % (c.target, traceback.format_exc()[-800:]),)))
     return i, rec.calls, rec.conformance_runs
 
 
